@@ -40,6 +40,52 @@ thread_local! {
     static DECLARED: std::cell::RefCell<std::collections::BTreeSet<String>> = const { std::cell::RefCell::new(std::collections::BTreeSet::new()) };
 }
 
+thread_local! {
+    /// Some(salt): annotate declarations; which ones is a function of (salt, declared name) so that the JSON and the
+    /// Cedar rendering of one schema carry the same annotations
+    static ANNOTATE: std::cell::Cell<Option<u32>> = const { std::cell::Cell::new(None) };
+}
+
+/// Run `f` with schema annotations switched on.
+pub fn with_annotations<T>(salt: u32, f: impl FnOnce() -> T) -> T {
+    ANNOTATE.with(|a| a.set(Some(salt)));
+    let r = f();
+    ANNOTATE.with(|a| a.set(None));
+    r
+}
+
+/// the annotations of the declaration called `name` (empty unless switched on)
+fn annotations_of(name: &str) -> Vec<(&'static str, &'static str)> {
+    let Some(salt) = ANNOTATE.with(|a| a.get()) else { return vec![] };
+    let mut h: u32 = salt ^ 0x9e37_79b9;
+    for b in name.bytes() {
+        h = h.rotate_left(5) ^ (b as u32);
+        h = h.wrapping_mul(0x0100_0193);
+    }
+    const KEYS: [&str; 4] = ["doc", "note", "x1", "in"];
+    const VALS: [&str; 5] = ["", "text", "two words", "quo\"te", "ünï \u{1F600}"];
+    match h % 6 {
+        0 => vec![(KEYS[(h >> 8) as usize % 4], VALS[(h >> 16) as usize % 5])],
+        1 if (h >> 4) % 2 == 0 => vec![("doc", VALS[(h >> 16) as usize % 5]), ("note", VALS[(h >> 20) as usize % 5])],
+        _ => vec![],
+    }
+}
+
+fn annotations_cedar(name: &str, indent: &str) -> String {
+    annotations_of(name).iter().map(|(k, v)| if v.is_empty() { format!("{indent}@{k}\n") } else { format!("{indent}@{k}({})\n", text::str_lit(v, &mut text::Style::canonical())) }).collect()
+}
+
+fn annotate_json(name: &str, m: &mut Map<String, J>) {
+    let a = annotations_of(name);
+    if !a.is_empty() {
+        let mut am = Map::new();
+        for (k, v) in a {
+            am.insert(k.to_string(), json!(v));
+        }
+        m.insert("annotations".into(), J::Object(am));
+    }
+}
+
 fn set_declared(s: &RSchema) {
     let mut d: std::collections::BTreeSet<String> = s.entity_types.iter().map(|e| e.name.clone()).collect();
     COMMONS.with(|c| {
@@ -124,6 +170,7 @@ pub fn attrs_json(attrs: &RAttrs, ns: &str, t: &mut Option<&mut Tape>) -> J {
         } else if t.as_mut().map(|t| t.bool_p(1, 4)).unwrap_or(false) {
             tj.as_object_mut().unwrap().insert("required".into(), json!(true));
         }
+        annotate_json(&format!("attr:{k}"), tj.as_object_mut().unwrap());
         m.insert(k.clone(), tj);
     }
     J::Object(m)
@@ -150,6 +197,7 @@ pub fn schema_json(s: &RSchema, mut t: Option<&mut Tape>) -> J {
                     m.insert("tags".into(), type_json(tt, &ns, &mut t));
                 }
             }
+            annotate_json(&e.name, &mut m);
             ets.insert(base, J::Object(m));
         }
         let mut acts = Map::new();
@@ -170,11 +218,18 @@ pub fn schema_json(s: &RSchema, mut t: Option<&mut Tape>) -> J {
                 }
                 m.insert("appliesTo".into(), J::Object(ap));
             }
+            annotate_json(&format!("action:{}:{}", a.ns, a.id), &mut m);
             acts.insert(a.id.clone(), J::Object(m));
         }
         let cs = commons_in(&ns);
         if cs.is_empty() {
-            out.insert(ns.clone(), json!({"entityTypes": ets, "actions": acts}));
+            let mut nm = Map::new();
+            nm.insert("entityTypes".into(), J::Object(ets));
+            nm.insert("actions".into(), J::Object(acts));
+            if !ns.is_empty() {
+                annotate_json(&format!("namespace:{ns}"), &mut nm);
+            }
+            out.insert(ns.clone(), J::Object(nm));
         } else {
             let mut cm = Map::new();
             for (_, name, cty) in &cs {
@@ -186,9 +241,20 @@ pub fn schema_json(s: &RSchema, mut t: Option<&mut Tape>) -> J {
                     *c.borrow_mut() = saved;
                     d
                 });
+                let mut def = def;
+                if let Some(dm) = def.as_object_mut() {
+                    annotate_json(&format!("type:{ns}:{name}"), dm);
+                }
                 cm.insert(name.clone(), def);
             }
-            out.insert(ns.clone(), json!({"commonTypes": cm, "entityTypes": ets, "actions": acts}));
+            let mut nm = Map::new();
+            nm.insert("commonTypes".into(), J::Object(cm));
+            nm.insert("entityTypes".into(), J::Object(ets));
+            nm.insert("actions".into(), J::Object(acts));
+            if !ns.is_empty() {
+                annotate_json(&format!("namespace:{ns}"), &mut nm);
+            }
+            out.insert(ns.clone(), J::Object(nm));
         }
     }
     J::Object(out)
@@ -218,7 +284,7 @@ pub fn type_cedar(ty: &RType, ns: &str, t: &mut Option<&mut Tape>) -> String {
 }
 
 pub fn attrs_cedar(attrs: &RAttrs, ns: &str, t: &mut Option<&mut Tape>) -> String {
-    let items: Vec<String> = attrs.iter().map(|(k, (ty, req))| format!("{}{}: {}", cedar_ident_or_str(k), if *req { "" } else { "?" }, type_cedar(ty, ns, t))).collect();
+    let items: Vec<String> = attrs.iter().map(|(k, (ty, req))| format!("{}{}{}: {}", annotations_cedar(&format!("attr:{k}"), " "), cedar_ident_or_str(k), if *req { "" } else { "?" }, type_cedar(ty, ns, t))).collect();
     format!("{{{}}}", items.join(", "))
 }
 
@@ -230,10 +296,11 @@ pub fn schema_cedar(s: &RSchema, mut t: Option<&mut Tape>) -> String {
         for e in s.entity_types.iter().filter(|e| split_name(&e.name).0 == ns) {
             let base = split_name(&e.name).1;
             if let Some(ids) = &e.enum_ids {
+                body.push_str(&annotations_cedar(&e.name, "  "));
                 body.push_str(&format!("  entity {base} enum [{}];\n", ids.iter().map(|i| text::str_lit(i, &mut text::Style::canonical())).collect::<Vec<_>>().join(", ")));
                 continue;
             }
-            let mut line = format!("  entity {base}");
+            let mut line = format!("{}  entity {base}", annotations_cedar(&e.name, "  "));
             if !e.member_of.is_empty() {
                 let ps: Vec<String> = e.member_of.iter().map(|p| rel_name(p, &ns, &mut t)).collect();
                 if ps.len() == 1 && t.as_mut().map(|t| t.coin()).unwrap_or(false) {
@@ -253,7 +320,7 @@ pub fn schema_cedar(s: &RSchema, mut t: Option<&mut Tape>) -> String {
             body.push_str(&line);
         }
         for a in s.actions.iter().filter(|a| a.ns == ns) {
-            let mut line = format!("  action {}", cedar_ident_or_str(&a.id));
+            let mut line = format!("{}  action {}", annotations_cedar(&format!("action:{}:{}", a.ns, a.id), "  "), cedar_ident_or_str(&a.id));
             if !a.member_of.is_empty() {
                 line.push_str(&format!(
                     " in [{}]",
@@ -281,12 +348,14 @@ pub fn schema_cedar(s: &RSchema, mut t: Option<&mut Tape>) -> String {
                 *c.borrow_mut() = saved;
                 d
             });
+            cbody.push_str(&annotations_cedar(&format!("type:{ns}:{name}"), "  "));
             cbody.push_str(&format!("  type {name} = {def};\n"));
         }
         let body = format!("{cbody}{body}");
         if ns.is_empty() {
             out.push_str(&body.replace("\n  ", "\n").trim_start_matches("  ").to_string());
         } else {
+            out.push_str(&annotations_cedar(&format!("namespace:{ns}"), ""));
             out.push_str(&format!("namespace {ns} {{\n{body}}}\n"));
         }
     }
